@@ -179,7 +179,9 @@ pub fn chk_default_reset<T: GrTy>() {
     obl!(ok && d.counter() == 0 && d.pos() == 0, "default_state_is_converted_iv_counter_zero_buffer_empty");
     // reset from an arbitrary state re-creates it
     let pending: [u8; 128] = any();
-    let (mut h, _cv, _c) = arbitrary_state::<T>(&pending, 5, 0);
+    // every (fill, chaining value, counter) combination, in particular the empty buffer with counter 0 and a
+    // used chaining value that finalize_into_dirty leaves behind
+    let (mut h, _cv, _c) = if any::<bool>() { arbitrary_state::<T>(&pending, 0, 0) } else { arbitrary_state::<T>(&pending, 5, 0) };
     rec::reset();
     h.reset();
     obl!(rec::count() == 1 && entry_is(0, 3, &iv, T::B, None), "reset_recreates_the_variant_iv");
